@@ -238,7 +238,9 @@ func runInterrupts(t *kernel.Tape, opt core.Opts, only string) *core.Outcome {
 		case mr.Err == ErrNone && Canon(last.res.Out) != Canon(mr.Out):
 			viol("C05/result-differs-from-uninterrupted-run", fmt.Sprintf("uninterrupted: %q; interrupted %d times and resumed: %q", Canon(mr.Out), nInt, Canon(last.res.Out)))
 		}
-		if execsComparable(p, mr) {
+		// (when the uninterrupted run fails, an interrupt may legitimately stop the history
+		// before the failing step: executions are compared for runs that yield a value)
+		if execsComparable(p, mr) && mr.Err == ErrNone {
 			if d := diffExecs(mr.Execs, env.execsOf("r0", false)); d != "" {
 				viol("C05/executions-differ-from-uninterrupted-run", fmt.Sprintf("after %d interrupts: %s", nInt, d))
 			}
